@@ -6,7 +6,7 @@ Model (JSON):
             "pkgs": [pkg, ...],        # 1..3; pkgs[0] is the load target, the others are only reachable as alias targets
             "opts": {...},             # loader options, see OPT_KEYS
             "how": "name" | "pathstr" | "pathobj" | "initfile" | "syspath" | "nosearch",
-            "target": "top" | "dotted" | "missing",
+            "target": "top" | "dotted" | "missing" | "missing_dotted",   # dotted: an object path below the top-level name
             "pth": bool,               # a site-style .pth file with an `import <top>` line in the search root
             "via": "load" | "git",     # (static) git: the tree is committed and loaded with griffe.load_git(ref="HEAD")
             "op": "load" | "inspect" | "inspect_paths", "inspect_at": int,   # (fault) griffe.inspect(name, filepath=..) without/with import_paths
@@ -14,7 +14,9 @@ Model (JSON):
                                                # attributes allow_inspection / force_inspection are set before loading
             "syspath_mod": None | {"at": int, "how": "rebind" | "inplace" | "copy"},   # (fault) one module body tampers with sys.path
             "fault": None | {"at": int, "type": "exc" | "exit" | "dep"}}   # only kind == "fault"
-    pkg  = {"layout": "pkg" | "mod" | "ns" | "pyc" | "so",   # regular package / single module / PEP 420 namespace dir /
+    pkg  = {"layout": "pkg" | "mod" | "ns" | "pyc" | "so" | "zip",   # regular package / single module / PEP 420 namespace dir /
+                                                             # (zip: a regular package inside <name>-archive.zip, the archive is put on the
+                                                             #  search paths: importable through zipimport, invisible to the finder)
                                                              # source-less name.pyc (importable, invisible to the finder) /
                                                              # garbage extension-module file at top level
             "root": 0 | 1,            # which of the two search roots holds it
@@ -83,7 +85,10 @@ def flat_modules(pkg, name: str) -> list[dict]:
                 walk(ch, f"{dotted}.s{i}", f"{rel}/s{i}", ch["init"], chain_ok and (ch["init"] or layout == "ns"))
             # decoys are not modules of the model
 
-    walk(top, name, name, layout == "pkg", True)
+    walk(top, name, name, layout in ("pkg", "zip"), True)
+    if layout == "zip":
+        for m in out:
+            m["inzip"] = True
     return out
 
 
@@ -158,8 +163,12 @@ def render(case, sentinel: str) -> dict:
     tamper_mod = all_mods[tamper["at"] % len(all_mods)]["dotted"] if tamper and all_mods else None
     files: dict = {0: {}, 1: {}}
     out_decoys = []
+    zips = []
     for pi, (pkg, name) in enumerate(zip(case["pkgs"], names)):
         root = files[pkg.get("root", 0) % 2]
+        if pkg["layout"] == "zip":
+            root = {}
+            zips.append({"root": pkg.get("root", 0) % 2, "archive": f"{name}-archive.zip", "files": root})
         for m in mods[pi]:
             node = m["node"]
             imports, exports = [], ["C", "f"]
@@ -202,7 +211,20 @@ def render(case, sentinel: str) -> dict:
     if case.get("pth"):
         # what site.py would *execute*; Griffe's finder must only read it
         files[0][f"{names[0]}.pth"] = f"import {names[0]}\n".encode()
-    return {"names": names, "files": files, "modules": mods, "decoys": out_decoys, "fault_module": fault_mod, "tamper_module": tamper_mod, "missing": missing}
+    return {"names": names, "files": files, "modules": mods, "decoys": out_decoys, "fault_module": fault_mod, "tamper_module": tamper_mod, "missing": missing, "zips": zips}
+
+
+def write_zips(zips: list, roots: list[Path]) -> list[Path]:
+    import zipfile
+
+    out = []
+    for z in zips:
+        path = roots[z["root"]] / z["archive"]
+        with zipfile.ZipFile(path, "w") as zf:
+            for rel, data in sorted(z["files"].items()):
+                zf.writestr(zipfile.ZipInfo(rel, date_time=(2024, 1, 1, 0, 0, 0)), data)
+        out.append(path)
+    return out
 
 
 def write_tree(files: dict, roots: list[Path]) -> None:
@@ -238,9 +260,9 @@ def strategy():
             }
         )
 
-    main_static = pkg(["pkg"] * 6 + ["mod", "ns", "pyc", "so"])
-    main_fault = pkg(["pkg"] * 5 + ["mod", "ns", "pyc", "pyc", "so"])
-    other = pkg(["pkg"] * 4 + ["mod", "ns", "pyc", "pyc", "so"])
+    main_static = pkg(["pkg"] * 6 + ["mod", "ns", "pyc", "so", "zip"])
+    main_fault = pkg(["pkg"] * 5 + ["mod", "ns", "pyc", "pyc", "so", "zip"])
+    other = pkg(["pkg"] * 4 + ["mod", "ns", "pyc", "pyc", "so", "zip"])
     opts = st.fixed_dictionaries(
         {
             "submodules": st.sampled_from([True, True, False]),
@@ -253,7 +275,7 @@ def strategy():
         }
     )
     hows = st.sampled_from(["name", "name", "name", "pathstr", "pathobj", "initfile", "syspath", "nosearch"])
-    targets = st.sampled_from(["top", "top", "top", "dotted", "missing"])
+    targets = st.sampled_from(["top", "top", "top", "dotted", "dotted", "missing", "missing_dotted"])
 
     static = st.fixed_dictionaries(
         {
